@@ -254,12 +254,13 @@ def run(ctx):
   if ctx.only_sid:
     jobs = [j for j in jobs if ctx.only_sid.startswith('C01-%s-%s-%s-%s-i%d' % (j[0]['kind'], j[0]['mod'], j[0]['check'], j[0]['param'], j[1]))]
   mpctx = mp.get_context('fork')
-  with mpctx.Pool(processes=15) as pool:
-    results = list(pool.imap_unordered(run_cell, jobs, chunksize=1))
+  from pv import proc
+  if True:
+    results = list(proc.imap_unordered(run_cell, jobs, procs=15, chunk=4))
     # histories of one CheckKeypairDenylist object (factors recorded from a table entry must belong to THIS modulus)
     from pv import drive_C06
     hres = [] if ctx.only_sid and '-kphist-' not in ctx.only_sid else list(
-        pool.imap_unordered(drive_C06.keypair_history_worker, drive_C06.keypair_histories(ctx.quick, ctx.rng, 'C01'), chunksize=1))
+        proc.imap_unordered(drive_C06.keypair_history_worker, drive_C06.keypair_histories(ctx.quick, ctx.rng, 'C01'), procs=15))
   recs, empty = [], 0
   for hrecs, err in hres:
     if err:
